@@ -12,8 +12,17 @@ def mons():
 
 def specs(ctx):
     pts = list(range(0, 140, 4 if ctx.thorough() else 10))
-    hows = ['future', 'shutdown', 'exit_exc', 'exit_kbi', 'result_kbi', 'controller']
-    return sysrun.specs_cancel(ctx, sysrun.KINDS, hows, pts, seeds=2 if ctx.thorough() else 1)
+    hows = ['future', 'shutdown', 'exit_exc', 'exit_kbi', 'result_kbi', 'controller', 'exit_wait_kbi']
+    s = sysrun.specs_cancel(ctx, sysrun.KINDS, hows, pts, seeds=2 if ctx.thorough() else 1)
+    s += sysrun.specs_early_cancel(ctx, sysrun.KINDS[::2], seeds=2 if not ctx.thorough() else 4)
+    # Ctrl-C while the shutdown wait is blocked on a second, still queued transfer
+    rng = ctx.rng('c07-two')
+    for i, ts in enumerate(sysrun.KINDS):
+        for at in (3, 12, 30):
+            s.append(dict(transfers=[ts, dict(sysrun.KINDS[(i + 3) % len(sysrun.KINDS)])],
+                          cfg=dict(sysrun.CFG_SMALL, max_request_concurrency=1, max_submission_concurrency=1),
+                          chooser=sysrun.chooser(rng, i), cancel=dict(how='exit_wait_kbi', at=at)))
+    return s
 
 
 def run(ctx):
